@@ -32,6 +32,16 @@ theorem corner_append_source (c : List Nat × List Nat) (x y : Nat) :
     C02B.cornerAppend c x y = (c.1 ++ [x], c.2 ++ [y]) := by
   simp [C02B.cornerAppend]
 
+/-! ## one-line accessors of the containers, `id_*` properties (round 6) -/
+
+/-- as written: `len(c)` is the number of rows, `c.empty()` its emptiness, `has_attribute` membership among the attribute
+names, `len(corner container)` the number of `_elem` entries, `id_x` the range over the container `x` -/
+theorem accessors_source {α : Type} (c : List α × List Attr) (k : List Nat × List Nat) (n : String) :
+    C02B.dcLen c = c.1.length ∧ C02B.dcEmpty c = c.1.isEmpty ∧ C02B.dcHasAttr c n = hasAttr c.2 n ∧
+    C02B.dcAttributes c = c.2.map (·.name) ∧ C02B.cornerLen k = k.1.length ∧ C02B.idVertices c = List.range c.1.length ∧ C02B.idEdges c = List.range c.1.length ∧
+    C02B.idFaces c = List.range c.1.length ∧ C02B.idCells c = List.range c.1.length :=
+  ⟨rfl, rfl, rfl, rfl, rfl, rfl, rfl, rfl, rfl⟩
+
 /-! ## `DataContainer.append(val)` -/
 
 /-- as written: the value is appended to `_data`, then every attribute is expanded by one slot -/
@@ -132,7 +142,7 @@ theorem complete_edges_bridge (s : Raw) : C02B.completeEdges s = completeEdges s
       have hf := complete_edges_flags s ha'
       simp only [hardName] at hf
       have hlen : (createFlagAttr s "hard_edges").edges.length = s.edges.length := rfl
-      simp only [hlen, hf]
+      simp only [C02B.idEdges, C02B.dcLen, hlen, hf]
       exact key { s with eattrs := s.eattrs ++ [hardAttr s.edges.length] } rfl rfl rfl
 
 /-! ## `_prepare_vertices` -/
@@ -462,6 +472,7 @@ index first — is the model's `prepareEdges` (filter, `survIdx`, `reindexAttr`)
 theorem prepare_edges_refines (s : Raw) (h : UniqueNames s.eattrs) : C02B.prepareEdges s = prepareEdges s := by
   unfold C02B.prepareEdges prepareEdges
   simp only
+  have hd : C02B.dcLen (s.verts, ([] : List Attr)) = s.verts.length := rfl
   have hany : ∀ F : Int × Int → Bool, (∀ e, F e = !validE s.verts.length e) →
       s.edges.any F = s.edges.any (fun e => !validE s.verts.length e) := by
     intro F hF
@@ -584,5 +595,133 @@ theorem file_route_never_fails (cfg : Cfg) (m : Mouette.IO.Raw Rat) (dim : Optio
 
 example : ∃ b, instantiate {} (ofIO { verts := [(0, 0, 0), (1, 0, 0), (0, 1, 0), (0, 0, 1)], cells := [[0, 1, 2, 3]] }) none = .ok b ∧
     b.dim = 3 ∧ b.raw.faces.length = 4 ∧ b.raw.edges.length = 6 := ⟨_, rfl, by decide, by decide, by decide⟩
+
+/-! ## `mesh.from_arrays`, `mesh.load`, the property `dimensionality` (round 6) -/
+
+/-- BRIDGE: the body of `from_arrays` as written — a fresh `RawMeshData`; a vertex array of fewer than 3 columns padded with
+zero columns behind, of more than 3 refused; `n_vert` read after the padding; vertices stored; each of `E`, `F`, `C` only when
+given: refused when an index is `>= n_vert` (edges also when the array does not have 2 columns), stored otherwise; the raw data
+returned when `raw`, else handed to `_instanciate_raw_mesh_data` without a dimension — is the model's `fromArrays` followed by
+`instantiate` (absent arrays = empty ones). `w` is the common width of the rows of `V`. -/
+theorem from_arrays_bridge (cfg : Cfg) (w : Nat) (V : List (List Rat)) (E : Option (List (Int × Int)))
+    (F C : Option (List (List Nat))) (raw : Bool) (hw : ∀ v ∈ V, v.length = w) (h0 : V = [] → w ≤ 3) :
+    C02B.fromArrays cfg w 2 V E F C raw =
+      Except.bind (fromArrays V (E.getD []) (F.getD []) (C.getD [])) (finishArrays cfg raw) := by
+  by_cases hgt : 3 < w
+  · -- too wide: refused by both
+    have hne : V ≠ [] := fun e => by have := h0 e; omega
+    obtain ⟨v, hv⟩ := List.exists_mem_of_ne_nil V hne
+    have hany : V.any (fun v => decide (v.length > 3)) = true :=
+      List.any_eq_true.mpr ⟨v, hv, by simp [hw v hv, hgt]⟩
+    have h1 : ¬ w < 3 := by omega
+    have h2 : w ≠ 3 := by omega
+    unfold C02B.fromArrays fromArrays
+    simp only [hany, if_true, h1, h2, decide_false, decide_true, Bool.false_eq_true, if_false, ne_eq, not_false_eq_true,
+      bind_error]
+  · have hany : V.any (fun v => decide (v.length > 3)) = false := by
+      rw [List.any_eq_false]
+      intro v hv
+      simp [hw v hv]; omega
+    -- the vertex stage: both sides store `V.map padVertex`
+    have hstage : ((if decide (w < 3) then .ok (padCols V 0 (3 - w))
+        else (if decide (w ≠ 3) then .error "err:Other(Exception)" else (.ok V))) : Except String (List (List Rat)))
+        = .ok (V.map padVertex) := by
+      by_cases hlt : w < 3
+      · simp only [hlt, decide_true, if_true]
+        congr 1
+        unfold padCols
+        apply List.map_congr_left
+        intro v hv
+        simp [padVertex, hw v hv, hlt]
+      · have h3 : w = 3 := by omega
+        simp only [hlt, h3, decide_false, Bool.false_eq_true, if_false, ne_eq, not_true_eq_false]
+        congr 1
+        rw [List.map_congr_left (g := id)]
+        · simp
+        · intro v hv
+          simp [padVertex, hw v hv, h3]
+    have hmodel : fromArrays V (E.getD []) (F.getD []) (C.getD []) =
+        (if anyEdgeGE (E.getD []) V.length then .error "err:Other(Exception)"
+         else if anyRowGE (F.getD []) V.length then .error "err:Other(Exception)"
+         else if anyRowGE (C.getD []) V.length then .error "err:Other(Exception)"
+         else .ok { verts := V.map padVertex, edges := E.getD [], faces := F.getD [], cells := C.getD [] }) := by
+      unfold fromArrays anyEdgeGE anyRowGE
+      simp only [hany, Bool.false_eq_true, if_false]
+    rw [hmodel]
+    unfold C02B.fromArrays
+    rw [hstage]
+    have hl : (V.map padVertex).length = V.length := by simp
+    generalize V.map padVertex = V' at hl ⊢
+    simp only [bind_ok, bind_ite', hl]
+    cases E <;> cases F <;> cases C <;>
+      simp only [Option.getD_none, Option.getD_some, (rfl : anyEdgeGE [] V.length = false),
+        (rfl : anyRowGE [] V.length = false), Bool.false_eq_true, if_false,
+        bind_ok, bind_ite', ne_eq, not_true_eq_false, decide_false, C02B.initFresh, List.nil_append, finishArrays] <;>
+      first | rfl | (simp only [bind_ite', bind_ok]) | (simp only [bind_ite', bind_ok]; rfl)
+
+/-- consequence on the translated text: what `from_arrays` stores always has 3-D vertices -/
+theorem from_arrays_vertices_3d (cfg : Cfg) (w : Nat) (V : List (List Rat)) (E : Option (List (Int × Int)))
+    (F C : Option (List (List Nat))) (m : Raw) (hw : ∀ v ∈ V, v.length = w) (h0 : V = [] → w ≤ 3)
+    (h : C02B.fromArrays cfg w 2 V E F C true = .ok (.inl m)) : ∀ v ∈ m.verts, v.length = 3 := by
+  rw [from_arrays_bridge cfg w V E F C true hw h0] at h
+  cases hf : fromArrays V (E.getD []) (F.getD []) (C.getD []) with
+  | error e => rw [hf] at h; cases h
+  | ok m' =>
+    rw [hf] at h
+    have hm : m' = m := by
+      simp only [bind_ok, finishArrays, if_true] at h
+      cases h; rfl
+    subst hm
+    unfold fromArrays at hf
+    by_cases hany : V.any (fun v => decide (v.length > 3)) = true
+    · rw [if_pos hany] at hf; cases hf
+    · rw [if_neg hany] at hf
+      repeat' (split at hf)
+      all_goals first | (cases hf; done) | skip
+      cases hf
+      intro v hv
+      obtain ⟨u, hu, rfl⟩ := List.mem_map.mp hv
+      have hl : ¬ u.length > 3 := by
+        intro hgt
+        exact hany (List.any_eq_true.mpr ⟨u, hu, by simp [hgt]⟩)
+      unfold padVertex
+      split <;> first | omega | (simp; omega)
+
+/-- BRIDGE: `load(filename, dim, raw)` as written is the reader's record handed to `_instanciate_raw_mesh_data` with the
+caller's `dim` (or returned as it is when `raw`): the file route of `file_route_source` -/
+theorem load_bridge (cfg : Cfg) (data : Raw) (dim : Option Nat) (b : Built) :
+    (C02B.load cfg (some data) dim false = .ok (.inr b) ↔ instantiate cfg data dim = .ok b) ∧
+    C02B.load cfg (some data) dim true = .ok (.inl data) ∧ C02B.load cfg none dim false = .error "err:Other(Exception)" := by
+  refine ⟨?_, rfl, rfl⟩
+  unfold C02B.load
+  simp only [Bool.false_eq_true, if_false]
+  generalize instantiate cfg data dim = r
+  cases r with
+  | error e => simp [bind_error]
+  | ok b' => simp [bind_ok]
+
+/-- the whole file route on the translated text: `load` as written, applied to what a reader returns -/
+theorem load_file_route (cfg : Cfg) (m : Mouette.IO.Raw Rat) (dim : Option Nat) (b : Built)
+    (h : C02B.load cfg (some (ofIO m)) dim false = .ok (.inr b)) :
+    prepareSrc cfg C02S.prepareProgram (ofIO m) = b.raw ∧ (∀ v ∈ b.raw.verts, v.length = 3) ∧
+    b.dim = max (dim.getD 0) (dimensionality b.raw) := by
+  have h' := (load_bridge cfg (ofIO m) dim b).1.mp h
+  obtain ⟨a, b', _, d⟩ := file_route_source cfg m dim b h'
+  exact ⟨a, b', d⟩
+
+/-- the property `dimensionality` as written reads a CACHE (`_dimensionality`), filled on first use; `prepare()` as written
+ends with `_compute_dimensionality` (step `computeDim`, `prepare_program_order`), so after a construction the property
+returns the dimensionality of the FINISHED containers whatever was cached before (e.g. `0`, read on the still empty
+raw data) -/
+theorem dimensionality_cache_source (stale : Option Nat) (p : Raw) :
+    (C02B.dimensionalityProp none (dimBy C02S.dimChain C02S.dimDefault p)).1 = dimensionality p ∧
+    (C02B.dimensionalityProp (some (dimBy C02S.dimChain C02S.dimDefault p)) (stale.getD 0)).1 = dimensionality p ∧
+    (∀ d c, (C02B.dimensionalityProp (some d) c).1 = d) := by
+  rw [← Mouette.Props.C02.dimensionality_bridge]
+  exact ⟨rfl, rfl, fun _ _ => rfl⟩
+
+example : C02B.fromArrays {} 2 2 [[0, 0], [1, 0], [0, 1]] (some [(2, 0)]) (some [[0, 1, 2]]) none true
+    = .ok (.inl { verts := [[0, 0, 0], [1, 0, 0], [0, 1, 0]], edges := [(2, 0)], faces := [[0, 1, 2]] }) ∧
+    C02B.fromArrays {} 3 2 [[0, 0, 0]] (some [(0, 1)]) none none true = .error "err:Other(Exception)" := ⟨rfl, rfl⟩
 
 end Mouette.Props.C02Source
